@@ -203,6 +203,8 @@ def run_case(case, ctx):
     def mk():
         return Fxp(np.array(codes).reshape(shape), s, w, nf, raw=True)
     x = mk()
+    if i % 4 == 3:
+        x = G.historied(Fxp, x, rng)[0]
     axes = [None] + list(range(len(shape)))
     for ax in axes:
         kw = {} if ax is None else {'axis': ax}
